@@ -24,7 +24,14 @@ def _skips(stmts):
 def _guards(stmts, test, env):
     """If statements (elif included) below ``stmts`` whose test has the shape ``test``"""
     p = M.pat(test)
-    return [n for n in A.walk_body(stmts) if isinstance(n, ast.If) and p.matches(n.test, env)]
+    out = [n for n in A.walk_body(stmts) if isinstance(n, ast.If) and p.matches(n.test, env)]
+    if not out and test.startswith("not "):
+        # canonical form: `if not c: A elif ...` is held as `if c: ... else: A` — present the else branch as the guarded body
+        q = M.pat(test[4:])
+        for n in A.walk_body(stmts):
+            if isinstance(n, ast.If) and n.orelse and q.matches(n.test, env):
+                out.append(ast.If(test=ast.UnaryOp(ast.Not(), n.test), body=n.orelse, orelse=[]))
+    return out
 
 
 def _effects(stmts, names=("mods", "moved")):
